@@ -15,6 +15,7 @@ theorem atEOF_iff (r : Reader) : atEOF r = true ↔ delivered r = ([], true) := 
       | cons x xs => simp [atEOF, delivered]
     | dataEof bs => cases bs <;> simp [atEOF, delivered]
     | dataErr bs => simp [atEOF, delivered]
+    | dataErrOnce bs => simp [atEOF, delivered]
     | eof => simp [atEOF, delivered]
     | fail => simp [atEOF, delivered]
 
@@ -80,6 +81,17 @@ theorem pull_ok (r : Reader) (n : Nat) (acc out : Bytes) (rest : Reader)
           refine ⟨bs.take (n + 1), rfl, by simp; omega, ?_, ?_⟩
           · simp [delivered]
           · simp [delivered]
+      | dataErrOnce bs =>
+        simp only [pull] at h
+        by_cases hl : bs.length ≤ n + 1
+        · simp [hl] at h
+        · simp only [hl, if_false] at h
+          injection h with h
+          injection h with h1 h2
+          subst h1 h2
+          refine ⟨bs.take (n + 1), rfl, by simp; omega, ?_, ?_⟩
+          · simp [delivered]
+          · simp [delivered]
       | eof => simp [pull] at h
       | fail => simp [pull] at h
 
@@ -135,6 +147,7 @@ theorem pull_complete (r : Reader) (n : Nat) (acc b : Bytes)
         simp only [pull]
         simp [hn]
     | dataErr bs => simp [delivered] at hd
+    | dataErrOnce bs => simp [delivered] at hd
     | eof =>
       simp only [delivered, Prod.mk.injEq, and_true] at hd
       subst hd
